@@ -34,6 +34,10 @@ func normShapeOf(v ssa.Value) string {
 	return shapeOf(v, 0)
 }
 
+// shapeParamSubst, when set, renders the listed parameters as the normalised shape of the argument
+// a given call site passes for them: the shape a site in a helper would have in that caller.
+var shapeParamSubst map[*ssa.Parameter]string
+
 func normSiteShape(in ssa.Instruction) string {
 	old := shapeNorm
 	shapeNorm = true
@@ -67,6 +71,9 @@ func shapeOf(v ssa.Value, d int) string {
 		return x.Value.ExactString()
 	case *ssa.Parameter:
 		if shapeNorm {
+			if sub, ok := shapeParamSubst[x]; ok {
+				return sub
+			}
 			return fmt.Sprintf("p%d", paramIndex(x))
 		}
 		return x.Name()
